@@ -345,7 +345,7 @@ def run_shard(shard, ctx):
         return
     progs = enumerate_programs(shard["tier"])
     mine = [p for i, p in enumerate(progs) if i % shard["n"] == shard["k"]]
-    deadline = time.time() + BUDGET[shard["tier"]] * 0.8
+    deadline = min(time.time() + BUDGET[shard["tier"]] * 0.8, shard.get("deadline", 1e18))
     for (root, ops, rd) in mine:
         if time.time() > deadline:
             ctx.count("capped")
